@@ -111,6 +111,32 @@ class Run:
             v.part = name
             self.violations.setdefault(v.key(), v)
 
+    def parts_in_child(self, fn):
+        """Run fn(collector) - a function that computes parts in this process rather than through explore.prod/bfs - in
+        a forked child, so that whatever state the code under test keeps at module level never reaches the parent (from
+        which every later worker, confirmation and in-context re-run is forked)."""
+        from . import explore
+
+        def body(_rank):
+            got = []
+
+            class _Collector:
+                assumptions = self.assumptions
+                violations = self.violations
+                tier = self.tier
+                skipped = []
+
+                def add_part(self, n, res):
+                    res.rerun = None
+                    got.append((n, res))
+            fn(_Collector())
+            return got, _Collector.skipped
+        got, skipped = explore._fork_map(body, 1)[0]
+        self.skipped += skipped
+        for n, res in got:
+            res.rerun = lambda n=n: [x for m, x in explore._fork_map(body, 1)[0][0] if m == n][0]
+            self.add_part(n, res)
+
     def violation(self, kind, case, detail):
         v = Violation(kind, case, detail)
         self.violations.setdefault(v.key(), v)
@@ -127,6 +153,7 @@ class Run:
         n_new = 0
         n_known = 0
         harness_error = False
+        unconfirmed = []
         printed_known = set()
         vs = sorted(self.violations.values(), key=lambda v: (v.size(), v.key()))
         # group by kind so that one defect does not crowd out another
@@ -180,14 +207,20 @@ class Run:
                                         'between cases (fails again, identically, when part %r is re-run)' % part)
                         v.context = {'part': part, 'tier': self.tier}
                     else:
-                        print('HARNESS-ERROR property=%s violation kind=%s did not reproduce: %s'
-                              % (self.pid, v.kind, _canon(v.case)[:300]))
-                        harness_error = True
+                        unconfirmed.append(v)
                         continue
             path = self.write_replay(v)
             print('VIOLATION property=%s replay=%s' % (self.pid, path))
             print('  kind=%s detail=%s' % (v.kind, _canon(v.detail)[:600]))
             reported += 1
+        # A witness that fails neither from a fresh start nor when the exploration that found it is repeated is not
+        # reported as a violation.  Beside confirmed ones it is noted (code that reads stray memory fails differently
+        # each time); on its own it means the harness does not own some source of nondeterminism: a harness error.
+        for v in unconfirmed:
+            n_new -= 1
+            print('%s property=%s violation kind=%s did not reproduce: %s'
+                  % ('UNCONFIRMED' if reported else 'HARNESS-ERROR', self.pid, v.kind, _canon(v.case)[:300]))
+        harness_error = bool(unconfirmed) and not reported
         self.write_evidence(n_new, n_known)
         sys.stdout.flush()
         if harness_error:
